@@ -32,7 +32,7 @@ def run(ctx):
     ctx.stats['forms'] = kinds
     jobs += suites.core_suite(ctx, ctx.budget(160, 2500), configs=((2, 100, False), (3, 40, False), (4, 30, False), (8, 12, False)), faults=0.5)
     suites.conformance(ctx, jobs[:ctx.budget(400, 3000)])
-    tally, bad, res = suites.differential(ctx, jobs, None, label='fault-injection')
+    tally, bad, res = suites.differential(ctx, jobs, None, label='fault-injection', must_compile_prefixes=('f2_', 'f3_', 'f4_', 'f8_'))
     flags = {}
     for r in res.values():
         if 'vm' in r:
